@@ -10,5 +10,7 @@ CONSTANTS
   LeafKind = "blobs"
   WithSemi = FALSE
   Radii = {2}
+  Margin = 1
+  ProbeOdd = FALSE
 INVARIANT BBoxCoversRegion
 CHECK_DEADLOCK FALSE
